@@ -126,3 +126,28 @@ def adt_fields(adt):
 
 def fmt_edges(edges):
     return ','.join('bb%d->bb%d' % e for e in edges)
+
+
+CALLS_CLOSURE_ONCE = ('LocalKey::with', 'LocalKey::with_borrow', 'LocalKey::with_borrow_mut',
+                      'Option::unwrap_or_else')
+
+
+def on_all_paths(F, body, block, depth=0):
+    """True when `block` is executed on every normal path through `body` and - if body is a
+    closure - through the function that hands the closure to a call-exactly-once consumer."""
+    r = body.reach([0], cut_blocks=[block])
+    if block == 0:
+        r = set()
+    if any(x in r for x in body.returns):
+        return False
+    if body.kind != 'Closure':
+        return True
+    if depth > 4:
+        return False
+    try:
+        parent, call, ai = F.closure_consumer(body)
+    except AnchorMissing:
+        return False
+    if call is None or not call.is_('LocalKey::with', 'LocalKey::with_borrow', 'LocalKey::with_borrow_mut'):
+        return False
+    return on_all_paths(F, parent, call.bb, depth + 1)
